@@ -124,6 +124,11 @@ fn setup_inner(case: &Case, flags: &Flags) -> Result<World, String> {
     match &case.init {
         Init::Empty => {
             let disk = SimDisk::new(Vec::new());
+            if case.param("chunk_seed", 0) != 0 {
+                // benign chunking faults (short reads / short writes / EINTR): legal for any
+                // Read/Write implementation, so every property must hold under them too
+                disk.0.borrow_mut().rates = Some(crate::disk::Rates { short_read: 250, short_write: 250, eintr: 150, rng: crate::prng::Rng::new(case.param("chunk_seed", 0) as u64) });
+            }
             let mut lib = Lib::create_cfg(disk, case.version, case.bufsize).map_err(|r| format!("create failed: {}", r.brief()))?;
             lib.budget_base = flags.budget_base;
             Ok(World { lib, model: Model::new(case.version) })
